@@ -78,17 +78,26 @@ def run_idem(desc):
         if extra:
             classes.append('cli-timestamp')
         before = fsnap.snapshot(root)
-        trigger = c03.dedup_trigger_paths(root)
+        trigger = c03.dedup_trigger_paths(root, True)
         oc = updgen.run_update(root, o, create=create, extra_cli=extra)
         if oc.kind != 'return':
             return ok(classes=classes + ['first-update-failed:' + oc.kind])
         mid = fsnap.snapshot(root)
         # the known C03 defect leaves a stale duplicate behind, which the
         # second run then refreshes
-        sc = refscan.scan(root, 'Manifest', o['target'], o['hashes'])
-        known_stale = bool(sc.problems) and all(
-            k in ('stale-entry', 'wrong-hash-set') and p in trigger
-            for k, p, t in sc.problems)
+        trig_manifests = set()
+        for mset in c03.dedup_trigger_paths(root, True).values():
+            trig_manifests |= mset
+        for mset in trigger.values():
+            trig_manifests |= mset
+
+        def explained(p):
+            # a Manifest holding the stale duplicate, or a Manifest above it
+            # (whose MANIFEST entry follows)
+            return any(refscan.comp_prefix(refscan.dirname(p),
+                                           refscan.dirname(t))
+                       for t in trig_manifests)
+        known_stale = bool(trig_manifests)
         wrote = not fsnap.is_empty(fsnap.diff(before, mid))
         oc2 = updgen.run_update(root, o, create=False, extra_cli=extra)
         if oc2.kind != 'return':
@@ -106,7 +115,8 @@ def run_idem(desc):
                 f'rewrote: created {d["created"]} deleted {d["deleted"]} '
                 f'modified {d["modified"]} touched {d["touched"]}',
                 sig=(c03.KNOWN_DEDUP if known_stale and all(
-                    is_manifest_name(p) for p in fsnap.changed_paths(d))
+                    is_manifest_name(p) and explained(p)
+                    for p in fsnap.changed_paths(d))
                     else 'not-idempotent:' + (
                     'content' if d['created'] or d['deleted'] or d['modified']
                     else 'rewrite-same-bytes')), classes=classes)
